@@ -873,6 +873,7 @@ def run_c01(ctx):
     run_exact_stream(ctx, cases, "exact")
     long_array_stream(ctx, "c01", ["float"], 30 if ctx.tier == "quick" else 1000)
     f32_numpy_tolerance_stream(ctx, 300 if ctx.tier == "quick" else 8000)
+    array_scalar_tolerance_stream(ctx, 120 if ctx.tier == "quick" else 3000)
     run_float_stream(ctx, n_float)
     ctx.rule = ("exact stream: dyadic inputs on which every floating-point operation of the implementation is exact "
                 "(checked per case), one deviating entry placed on/inside/outside the boundary of the applicable "
@@ -935,6 +936,72 @@ def f32_numpy_tolerance_stream(ctx, n):
                                     f"gives {want}", canon, impl=res)
                 break
         ctx.traces_validated += 1
+
+
+def array_scalar_tolerance_stream(ctx, n):
+    """vector fields compared under SCALAR tolerances handed over as 0-d numpy arrays (np.asarray(1e-2), as a computation or a
+    DynamicTolerance may return them), relative and absolute tolerance far apart and the deviation between the two thresholds;
+    and one predicate object with data-derived default tolerances used for several fields in a row (single precision first, double
+    precision next; large magnitudes first, small ones next): every verdict is the exact formula's for THIS pair"""
+    from fieldcompare import predicates as P
+    rng = ctx.rng
+    for it in range(n):
+        L, k = rng.randint(2, 5), rng.choice([2, 3])
+        mag = rng.choice([100.0, 500.0, 1000.0])
+        a = np.array([[mag + rng.randint(0, 8) for _ in range(k)] for _ in range(L)], dtype=float)
+        b = a.copy()
+        i, j = rng.randrange(L), rng.randrange(k)
+        b[i, j] += 0.5
+        rel_v, abs_v = rng.choice([(1e-2, 1e-6), (1e-9, 1e-2), (1e-2, 0.0), (0.0, 1e-2), (1e-9, 1.0)])
+        form = rng.choice(["0-d array", "0-d array", "float"])
+        mk = (lambda v: np.asarray(v)) if form == "0-d array" else float
+        d, m = Fr(1, 2), Fr(max(abs(float(a[i, j])), abs(float(b[i, j]))))
+        want = d <= max(Fr(rel_v) * m, Fr(abs_v))
+        canon = {"array_scalar_tolerance": {"shape": [L, k], "entry": [i, j], "magnitude": mag, "rel_tol": rel_v, "abs_tol": abs_v,
+                                            "tolerances_given_as": form}}
+        res = {}
+        for nm, x, y in (("ab", a, b), ("ba", b, a)):
+            try:
+                res[nm] = bool(P.FuzzyEquality(rel_tol=mk(rel_v), abs_tol=mk(abs_v))(x, y))
+            except Exception as e:  # noqa: BLE001
+                res[nm] = f"raised {type(e).__name__}: {e}"
+        ctx.case(canon, True, sample={"case": canon, "impl": res, "statement": want})
+        ctx.count(f"c01:vector field, scalar tolerances as {form}")
+        ctx.tie("T2 vector fields under 0-d array tolerances: implementation = exact formula")
+        if res["ab"] is not want or res["ba"] is not want:
+            ctx.violation("E4", f"c01: vector field, tolerances rel={rel_v} abs={abs_v} given as {form}: verdicts {res}, the formula gives {want}",
+                          canon, impl=res)
+        ctx.traces_validated += 1
+    # one predicate with default (data-derived) tolerances over a sequence of pairs
+    for it in range(max(10, n // 4)):
+        pred = rng.choice([P.FuzzyEquality(), P.DefaultEquality(), P.FuzzyEquality(abs_tol=P.ScaledTolerance(1e-3), rel_tol=0.0)])
+        scaled = "abs_tol: dynamic" in str(pred) or "ScaledTolerance" in repr(getattr(pred, "_abs_tol", ""))
+        hist = []
+        for step in range(rng.randint(2, 4)):
+            dt = rng.choice(["float32", "float64"])
+            mag = rng.choice([1.0, 1.0e6])
+            a = (np.array([1.0, 1.5, 1.25]) * mag).astype(dt)
+            b = a.copy()
+            # relative deviation 1e-10 in double precision (beyond eps64, far below eps32); for float32 data 4 ulp
+            if dt == "float64":
+                b[1] = a[1] * (1.0 + 1e-10)
+            else:
+                b[1] = a[1] + 4 * np.spacing(a[1])
+            hist.append(f"{dt}@{mag:g}")
+            fresh = type(pred)(**({"abs_tol": P.ScaledTolerance(1e-3), "rel_tol": 0.0} if scaled else {}))
+            try:
+                got, ref = (bool(pred(a, a.copy())), bool(pred(a, b))), (bool(fresh(a, a.copy())), bool(fresh(a, b)))
+            except Exception as e:  # noqa: BLE001
+                got, ref = f"raised {type(e).__name__}: {e}", None
+            canon = {"default_tolerances_reused": {"predicate": str(type(pred).__name__), "scaled_abs_tol": scaled, "pairs_so_far": list(hist)}}
+            ctx.case(canon, len(hist) > 1, sample={"case": canon, "reused": got, "fresh": ref})
+            ctx.count("c01:predicate with data-derived tolerances reused")
+            ctx.tie("T2 a reused predicate with default tolerances = a fresh one")
+            if got != ref:
+                ctx.violation("E4", f"c01: one {type(pred).__name__} with data-derived tolerances used for {hist} answers {got} "
+                                    f"(identical pair, deviating pair) where a fresh one answers {ref}", canon)
+                break
+            ctx.traces_validated += 1
 
 
 def run_c09(ctx):
@@ -1338,6 +1405,7 @@ def run_c10(ctx):
         comp = rng.random() < 0.4
         run_scaled_case(ctx, t, comp, dt, shape, a, b, exprs, vals)
     default_base_reuse_stream(ctx, 60 if q else 1500)
+    unbounded_tolerance_stream(ctx, 80 if q else 2000)
     outs = ctx.coq_eval(HEADER, exprs, name="scaled")
     for want, out in zip(vals, outs):
         got = [Fr(x[0], x[1]) for x in out]
@@ -1348,6 +1416,47 @@ def run_c10(ctx):
     ctx.rule = ("triples (A,B,tol1<=tol2) from the C01/C09 generators plus integer arrays given directly to the fuzzy "
                 "predicates; P(A,A), P(B,B), P(A,B), P(B,A) and P at the larger tolerance are evaluated on implementation and "
                 "model; fresh vs reused predicate objects; ScaledTolerance values. non-trivial = arrays differ")
+
+
+def unbounded_tolerance_stream(ctx, n):
+    """the largest tolerance there is: with abs_tol = inf (scalar, or one component of a per-component tolerance) every finite
+    array equals itself and every finite pair passes — enlarging a tolerance up to infinity never turns a pass into a fail"""
+    from fieldcompare import predicates as P
+    rng = ctx.rng
+    for it in range(n):
+        k = rng.choice([None, 3])
+        L = rng.randint(1, 4)
+        shape = (L,) if k is None else (L, k)
+        dt = rng.choice(["float64", "float32", "int32"])
+        a = np.array([rng.randint(-1000, 1000) for _ in range(int(np.prod(shape)))]).reshape(shape).astype(dt)
+        b = a.copy()
+        b.reshape(-1)[rng.randrange(b.size)] += rng.choice([0, 1, 7])
+        if k is not None and rng.random() < 0.5:
+            tol = np.array([1.0, np.inf, 0.5])
+            form = "one component infinite"
+        else:
+            tol = np.inf
+            form = "infinite"
+        canon = {"unbounded_tolerance": {"dtype": dt, "shape": list(shape), "abs_tol": form, "a": a.tolist(), "b": b.tolist()}}
+        res = {}
+        for nm, x, y in (("aa", a, a.copy()), ("ab", a, b), ("ba", b, a)):
+            try:
+                res[nm] = bool(P.FuzzyEquality(rel_tol=0.0, abs_tol=tol)(x, y))
+            except Exception as e:  # noqa: BLE001
+                res[nm] = f"raised {type(e).__name__}: {e}"
+        small = bool(P.FuzzyEquality(rel_tol=0.0, abs_tol=(np.array([1.0, 8.0, 0.5]) if form != "infinite" else 8.0))(a, b))
+        ctx.case(canon, True, sample={"case": canon, "impl": res, "with abs_tol 8": small})
+        ctx.count(f"c10:absolute tolerance {form}")
+        ctx.tie("T2 unbounded tolerances: reflexive, and a pass at a finite tolerance stays a pass")
+        if res["aa"] is not True:
+            ctx.violation("E4", f"c10: an array does not compare equal to itself under an {form} absolute tolerance: {res['aa']}", canon, impl=res)
+        elif res["ab"] != res["ba"]:
+            ctx.violation("E4", f"c10: verdict depends on the argument order under an {form} absolute tolerance: {res}", canon, impl=res)
+        elif small and res["ab"] is not True:
+            ctx.violation("E4", f"c10: a pair that passes at abs_tol 8 fails at an {form} absolute tolerance", canon, impl=res)
+        elif form == "infinite" and res["ab"] is not True:
+            ctx.violation("E4", "c10: a finite pair does not pass under an infinite absolute tolerance", canon, impl=res)
+        ctx.traces_validated += 1
 
 
 def default_base_reuse_stream(ctx, n):
